@@ -73,3 +73,26 @@ package chain
 //@   requires c != nil && c.momentumPool != nil
 //@   requires frontierOf(c).momentumAt[1] != 0
 //@   ensures[refuse-foreign-db] result == nil && !old(frontierOf(c).idHeight == 0 && frontierOf(c).idHash == types.ZeroHash) ==> old(momentumObj(frontierOf(c).momentumAt[1]).Hash == momentumObj(c.Genesis.genesisMomentum).Hash)
+
+// ---- C16: the chain's mutators accept verified transactions only -------------------------------------------------------------
+//@ func Chain.AcquireInsert(self, reason)
+//@   ensures result != nil
+//@   modifies nothing
+
+//@ func AccountPool.GetPatch(self, address, identifier)
+//@   modifies nothing
+
+//@ func AccountPool.ForceAddAccountBlockTransaction(self, insertLocker, transaction)
+//@   requires[verified] transaction != nil && transaction.verified
+//@   modifies self.accountStoreAt
+
+//@ func AccountPool.AddAccountBlockTransaction(self, insertLocker, transaction)
+//@   requires[verified] transaction != nil && transaction.verified
+//@   modifies self.accountStoreAt
+
+//@ func MomentumPool.AddMomentumTransaction(self, insertLocker, transaction)
+//@   requires[verified] transaction != nil && transaction.verified
+//@   modifies self.momentumStoreAt, self.frontierStore, self.accountStoreAt
+
+//@ func MomentumPool.RollbackTo(self, insertLocker, identifier)
+//@   modifies self.momentumStoreAt, self.frontierStore, self.accountStoreAt
